@@ -317,8 +317,10 @@ class Sim(object):
             if self.shared_stores is not None:
                 break
 
-    def start_execution(self, arn, data, name=None, via=0):
-        """what RestAPI.StartExecution publishes (shared queue)"""
+    def start_execution(self, arn, data, name=None, via=0, threadsafe=False, use_shared_queue=True):
+        """what RestAPI.StartExecution publishes (shared queue); with threadsafe=True as the REST front end really hands it
+        over (the basic_publish is then a zero-delay callback of the instance's connection, a ("timer", seq) step);
+        use_shared_queue=False is what StartSyncExecution publishes (the accepting instance's own queue)"""
         inst = self.instances[via]
         name = name or str(_uuid.uuid4())
         parts = arn.split(":")
@@ -329,7 +331,7 @@ class Sim(object):
                                             "StartTime": start_time},
                "State": {"EnteredTime": start_time, "Name": ""},
                "StateMachine": {"Id": arn, "Name": sm.get("name")}}
-        inst.dispatcher.publish({"data": data, "context": ctx}, threadsafe=False, use_shared_queue=True)
+        inst.dispatcher.publish({"data": data, "context": ctx}, threadsafe=threadsafe, use_shared_queue=use_shared_queue)
         return exec_arn
 
     def publish_raw(self, queue, body, message_id=None, via_default=True):
